@@ -766,7 +766,13 @@ class Builder:
         g, cfg = self.g, self.cfg
         fields = []
         imports = []
-        if cfg.schema == 'swift':
+        if cfg.schema == 'client':
+            fields = [
+                {'name': 'style', 'type': prim('String'), 'doc': None, 'default': ('lit', 'rpc'), 'annots': []},
+                {'name': 'auth', 'type': prim('String'), 'doc': None, 'default': ('lit', 'user'), 'annots': []},
+                {'name': 'is_preview', 'type': prim('Boolean'), 'doc': None, 'default': ('lit', False), 'annots': []},
+            ]
+        elif cfg.schema == 'swift':
             fields = [
                 {'name': 'auth', 'type': prim('String'), 'doc': None, 'default': ('lit', 'user'), 'annots': []},
                 {'name': 'host', 'type': prim('String'), 'doc': None, 'default': ('lit', 'api'), 'annots': []},
@@ -811,6 +817,12 @@ class Builder:
 
     def attr_value(self, f):
         t = f['type']
+        if self.cfg.schema in ('client', 'swift') and f['name'] == 'style':
+            return ('lit', self.g.choice(['rpc', 'upload', 'download']))
+        if self.cfg.schema in ('client', 'swift') and f['name'] == 'auth':
+            return ('lit', self.g.choice(['user', 'team', 'noauth', 'app, user']))
+        if self.cfg.schema in ('client', 'swift') and f['name'] == 'host':
+            return ('lit', self.g.choice(['api', 'content', 'notify']))
         b = t[1] if t[0] == 'nullable' else t
         if b[0] == 'ref':
             u = self.idx.get(b[1], b[2])
